@@ -188,7 +188,7 @@ Definition create (s : state) (i : nat) : state :=
          run and the re-runs share one path) *)
       let s := begin_run true i (clear_sources i s) in
       let '(s, v) := eval p (read_any p) true (Some i, true) body s in
-      enqueue i (updn i (fun n => set_epoll (set_ereg n false) false) (emit (EvEnd i v) s))
+      enqueue i (updn i (fun n => set_epoll (set_edone (set_ereg n false) false) false) (emit (EvEnd i v) s))
   | DEff _ _ _ =>
       (* effect_base: dirty = true, one notification (no waker yet), task spawned *)
       enqueue i (updn i (fun n => set_epoll (set_edone (set_ereg (set_eflag (set_edirty (set_efirst n true) true) true) false) false) false) s)
